@@ -36,7 +36,7 @@ class SubtreesTrie(Generic[T]):
         if init_trie:
             self.trie = init_trie
         else:
-            self.trie = datrie.Trie([chr(i) for i in range(30)])
+            self.trie = datrie.Trie(ranges=[(chr(1), chr(_ESCAPE_CHAR))])
             for path in init_map or {}:
                 self.trie[path_to_trie_key(path)] = init_map[path]
 
@@ -44,6 +44,10 @@ class SubtreesTrie(Generic[T]):
             self.root_path: str = path_to_trie_key(root_path)
         else:
             self.root_path: str = ""
+
+    def _root_path_len(self) -> int:
+        # Number of elements of the path represented by `self.root_path`.
+        return len(trie_key_to_path(self.root_path)) if self.root_path else 0
 
     def __setitem__(self, key: Path, value: Tuple[Path, T]):
         assert is_path(key)
@@ -63,7 +67,7 @@ class SubtreesTrie(Generic[T]):
         return [
             (
                 value := self.trie[self.root_path + suffix],
-                (value[0][len(self.root_path) - 1 :], value[1]),
+                (value[0][self._root_path_len() :], value[1]),
             )[-1]
             for suffix in self.trie.suffixes(self.root_path)
         ]
@@ -74,7 +78,7 @@ class SubtreesTrie(Generic[T]):
                 trie_key_to_path(chr(1) + suffix),
                 (
                     value := self.trie[self.root_path + suffix],
-                    (value[0][len(self.root_path) - 1 :], value[1]),
+                    (value[0][self._root_path_len() :], value[1]),
                 )[-1],
             )
             for suffix in self.trie.suffixes(self.root_path)
@@ -85,13 +89,41 @@ class SubtreesTrie(Generic[T]):
         return SubtreesTrie(init_trie=self.trie, root_path=new_root_path)
 
 
+# datrie supports alphabets of at most 254 characters. chr(0) is ignored by the trie
+# and chr(1) is reserved for the root, so path elements below `_SINGLE_CHAR_LIMIT`
+# are encoded as the single character chr(i + 2). Larger elements (nodes with many
+# children) are encoded as `_ESCAPE_CHAR` followed by `_NUM_DIGITS` base-`_BASE`
+# digits (most significant first). This encoding preserves the prefix relation and
+# the (pre-order) ordering of paths.
+_ESCAPE_CHAR = 254
+_SINGLE_CHAR_LIMIT = _ESCAPE_CHAR - 2
+_BASE = 250
+_NUM_DIGITS = 4
+
+
+def _encode_path_element(i: int) -> str:
+    if i < _SINGLE_CHAR_LIMIT:
+        return chr(i + 2)
+
+    rest = i - _SINGLE_CHAR_LIMIT
+    if rest >= _BASE**_NUM_DIGITS:
+        raise ValueError(f"Path element {i} too large for trie key encoding")
+
+    digits = []
+    for _ in range(_NUM_DIGITS):
+        digits.append(chr(rest % _BASE + 2))
+        rest //= _BASE
+
+    return chr(_ESCAPE_CHAR) + "".join(reversed(digits))
+
+
 def path_to_trie_key(path: Path) -> str:
     # 0-bytes are ignored by the trie ==> +1
     # To represent the empty part, reserve chr(1) ==> +2
     if not path:
         return chr(1)
 
-    return chr(1) + "".join([chr(i + 2) for i in path])
+    return chr(1) + "".join([_encode_path_element(i) for i in path])
 
 
 def trie_key_to_path(key: str) -> Path:
@@ -103,4 +135,18 @@ def trie_key_to_path(key: str) -> Path:
     if key == chr(1):
         return ()
 
-    return tuple([ord(c) - 2 for c in key if ord(c) != 1])
+    result = []
+    chars = [ord(c) for c in key if ord(c) != 1]
+    idx = 0
+    while idx < len(chars):
+        if chars[idx] != _ESCAPE_CHAR:
+            result.append(chars[idx] - 2)
+            idx += 1
+        else:
+            value = 0
+            for digit in chars[idx + 1 : idx + 1 + _NUM_DIGITS]:
+                value = value * _BASE + (digit - 2)
+            result.append(value + _SINGLE_CHAR_LIMIT)
+            idx += 1 + _NUM_DIGITS
+
+    return tuple(result)
